@@ -9,4 +9,9 @@ if [ ! -x /verif/.bin/crashtrace ] || [ /verif/tools/crashtrace.c -nt /verif/.bi
   $CC -O2 -Wall -Wextra -o /verif/.bin/crashtrace.new.$$ /verif/tools/crashtrace.c
   mv -f /verif/.bin/crashtrace.new.$$ /verif/.bin/crashtrace
 fi
+# Warm the Go build cache for the -race variant of the instrumented binaries (C44-C46 free-running pass) and for the d2
+# binary (C34/C35/C48): cold, the race build alone takes minutes and would eat the first check's budget.
+. /verif/env.sh
+(cd /verif/h && CGO_ENABLED=1 $GO build -race -o /dev/null oss.terrastruct.com/d2/d2cli oss.terrastruct.com/d2/lib/imgbundler) || echo "setup_extra: race warm-up failed (C44-C46 will build it themselves)" >&2
+(cd /verif/h && $GO build -o /dev/null oss.terrastruct.com/d2) || true
 exit 0
